@@ -254,9 +254,24 @@ func (fg *FuncGen) execCall(res ssa.Value, c *ssa.CallCommon, in ssa.Instruction
 		fg.pendingFnVal = args[0].T
 		args = args[1:]
 	}
+	var before *Obligation
+	if fg.g.callVacuity && fg.inlineDepth == 0 {
+		before = &Obligation{Name: fg.oblName("vacuity", "the call "+fg.g.srcText(in.Pos(), "call")+" is reached"), Kind: "vacuity", Func: funcDisplayName(fg.fn), Props: fg.props,
+			Prefix: len(fg.asserts), Goal: fg.reach, ExpectSat: true, ThoroughOnly: true}
+		fg.obls = append(fg.obls, before)
+	}
 	r := fg.applyCall(cl, args, in.Pos(), "true")
 	if res != nil {
 		fg.vals[res] = r
+	}
+	if fg.g.callVacuity && fg.inlineDepth == 0 {
+		// vacuity guard (-callvac, thorough tier): the facts assumed about this call (the callee's contract, the
+		// type facts of its results, the invariants re-assumed afterwards) must leave the call site's
+		// continuation satisfiable whenever the call site itself was; `unsat` here means a contradictory
+		// contract, under which everything after the call is proved vacuously
+		o := &Obligation{Name: fg.oblName("vacuity", "the code after "+fg.g.srcText(in.Pos(), "call")+" is reachable"), Kind: "vacuity", Func: funcDisplayName(fg.fn), Props: fg.props,
+			Prefix: len(fg.asserts), Goal: fg.reach, ExpectSat: true, ThoroughOnly: true, PairedWith: before.Name}
+		fg.obls = append(fg.obls, o)
 	}
 }
 
@@ -828,6 +843,10 @@ func (fg *FuncGen) havocForCall(cl *callee, args []Val, st, pre *State) {
 	fg.inCallHavoc = true
 	defer func() { fg.inCallHavoc = false }()
 	if cl.ct != nil && cl.ct.Pure {
+		// `pure` = writes nothing that existed; it may still allocate (its result can be `fresh`).  Without
+		// the bump a pure callee that ensures fresh(result) made every path through the call infeasible:
+		// result < $alloc (type fact) and result >= $alloc (fresh) on the same counter.
+		fg.bumpAlloc(st)
 		return
 	}
 	if cl.ct != nil && cl.ct.HasMod {
